@@ -276,7 +276,7 @@ struct RealOut {
   fault: Option<String>,
 }
 
-fn run_real(kind: SubjKind, via_map: Attach, h: &[Call]) -> RealOut {
+fn run_real(kind: SubjKind, via_map: Attach, shared: bool, h: &[Call]) -> RealOut {
   let n_obs = h.iter().filter(|c| matches!(c, Call::Sub(_) | Call::NextNested(..))).count();
   let log: Arc<Mutex<Vec<(usize, usize, Ev)>>> = Arc::new(Mutex::new(vec![]));
   let step = Arc::new(AtomicUsize::new(0));
@@ -284,6 +284,8 @@ fn run_real(kind: SubjKind, via_map: Attach, h: &[Call]) -> RealOut {
   set_monitor_mode(true);
   let r = catch_unwind(AssertUnwindSafe(|| {
     let sbj = AnySubject::new(kind);
+    // every observer through one and the same Observable value, or each through its own
+    let one: Option<Observable<'static, i64>> = if shared { Some(sbj.observable()) } else { None };
     let subs: Arc<Mutex<Vec<Option<Subscription<'static>>>>> = Arc::new(Mutex::new(vec![None; n_obs]));
     // armed by NextNested: (observer whose callback subscribes, the new observer)
     let armed: Arc<Mutex<Option<(usize, usize)>>> = Arc::new(Mutex::new(None));
@@ -292,19 +294,24 @@ fn run_real(kind: SubjKind, via_map: Attach, h: &[Call]) -> RealOut {
       i: usize,
       sbj: &AnySubject,
       via_map: Attach,
+      one: &Option<Observable<'static, i64>>,
       log: &Arc<Mutex<Vec<(usize, usize, Ev)>>>,
       step: &Arc<AtomicUsize>,
       subs: &Arc<Mutex<Vec<Option<Subscription<'static>>>>>,
       armed: &Arc<Mutex<Option<(usize, usize)>>>,
     ) {
+      let base = match one {
+        Some(o) => o.clone(),
+        None => sbj.observable(),
+      };
       let o = match via_map {
-        Attach::Direct => sbj.observable(),
-        Attach::Map => sbj.observable().map(|x| x),
-        Attach::Take1 => sbj.observable().take(1),
+        Attach::Direct => base,
+        Attach::Map => base.map(|x| x),
+        Attach::Take1 => base.take(1),
       };
       let (l1, l2, l3) = (log.clone(), log.clone(), log.clone());
       let (s1, s2, s3) = (step.clone(), step.clone(), step.clone());
-      let (sbj2, log2, step2, subs2, armed2) = (sbj.clone(), log.clone(), step.clone(), subs.clone(), armed.clone());
+      let (sbj2, log2, step2, subs2, armed2, one2) = (sbj.clone(), log.clone(), step.clone(), subs.clone(), armed.clone(), one.clone());
       let s = o.subscribe(
         move |x| {
           l1.lock().unwrap().push((s1.load(Ordering::Relaxed), i, Ev::n(x)));
@@ -319,7 +326,7 @@ fn run_real(kind: SubjKind, via_map: Attach, h: &[Call]) -> RealOut {
             }
           };
           if let Some(inner) = fire {
-            subscribe_obs(inner, &sbj2, via_map, &log2, &step2, &subs2, &armed2);
+            subscribe_obs(inner, &sbj2, via_map, &one2, &log2, &step2, &subs2, &armed2);
           }
         },
         move |e| l2.lock().unwrap().push((s2.load(Ordering::Relaxed), i, Ev::E(err_code(&e)))),
@@ -330,7 +337,7 @@ fn run_real(kind: SubjKind, via_map: Attach, h: &[Call]) -> RealOut {
     for (si, c) in h.iter().enumerate() {
       step.store(si, Ordering::Relaxed);
       match c {
-        Call::Sub(i) => subscribe_obs(*i, &sbj, via_map, &log, &step, &subs, &armed),
+        Call::Sub(i) => subscribe_obs(*i, &sbj, via_map, &one, &log, &step, &subs, &armed),
         Call::NextNested(v, outer, inner) => {
           *armed.lock().unwrap() = Some((*outer, *inner));
           sbj.next(*v);
@@ -392,10 +399,11 @@ pub fn check(tier: &str) -> Report {
             for via_map in [Attach::Direct, Attach::Map, Attach::Take1] {
               let (exp, counts, p) = reference(kind, via_map, h);
               perm += p;
-              let real = run_real(kind, via_map, h);
+              for shared in [false, true] {
+              let real = run_real(kind, via_map, shared, h);
               runs += 1;
               steps += h.len() as u64;
-              let name = format!("{:?}Subject{}", kind, match via_map { Attach::Direct => "", Attach::Map => ".map", Attach::Take1 => ".take(1)" });
+              let name = format!("{:?}Subject{}{}", kind, match via_map { Attach::Direct => "", Attach::Map => ".map", Attach::Take1 => ".take(1)" }, if shared { " (one Observable value)" } else { "" });
               let mut add = |class: &str, detail: String| {
                 let e = local.entry(format!("{}/{}", name, class)).or_insert((format!("{} | history: [{}]", detail, show(h)), 0));
                 e.1 += 1;
@@ -432,6 +440,7 @@ pub fn check(tier: &str) -> Report {
                   }
                 }
               }
+              }
             }
           }
         }
@@ -458,7 +467,7 @@ pub fn check(tier: &str) -> Report {
   r.samples.push(s(format!("history: [{}]", show(&hs[hs.len() / 2]))));
   r.samples.push(s(format!("history: [{}]", show(&hs[hs.len() - 1]))));
   r.extra.push(("histories".into(), J::I(hs.len() as i64)));
-  r.extra.push(("subject_types_x_attachment".into(), J::I(12)));
+  r.extra.push(("subject_types_x_attachment".into(), J::I(24)));
   r.extra.push(("nontrivial_runs".into(), J::I(nontriv as i64)));
   r.extra.push(("permissive_cases".into(), J::I(perm as i64)));
   r.extra.push(("explanation".into(), s("states = nodes of the call-sequence tree visited (one per call of every run + the initial state); transitions = calls executed on a fresh real subject; every run is compared stepwise and per observer with the reference state machine")));
